@@ -142,6 +142,16 @@ fn check_one(ctx: &Ctx, mode: &Mode, cfg: &TokCfg, sched: &[Feed], input: &str, 
                 ctx.violation(&kind, &witness(cfg, sched), json!({"message": msg, "job": what, "input": input}));
                 false
             } else {
+                // the token streams differ (the token check's business), but one clause of the line property
+                // does not depend on token contents: the EOF token carries 1 + the line breaks of the whole input
+                if mode.lines {
+                    if let (Some(a), Some(b)) = (real.items.last(), r.items.last()) {
+                        if matches!(a.0, Item::Eof) && matches!(b.0, Item::Eof) && a.1 != b.1 {
+                            ctx.violation("line", &witness(cfg, sched), json!({"message": format!("EOF token on line {} but the input has {} line breaks (token streams differ as well: {msg})", a.1, b.1 - 1), "job": what, "input": input}));
+                            return false;
+                        }
+                    }
+                }
                 true
             }
         },
